@@ -581,17 +581,17 @@ def step_thresholds(ctx, prog):
 # ---- correspondence of the index engine (safe) and the pointer engine (`unsafe` feature) ---------------------------------
 
 SAFE_PLUMBING = (
-    r"^STORE local:i = ", r"^BR Ge\(local:i,param:self\.0\.bhidx_end\)$", r"^CALL .*IndexMut<I> for \[T; N\]>::index_mut\(param:self\.0\.bh_context,",
-    r"^CALL .*IntoIterator for &'a mut \[T\]>::into_iter\(", r"^STORE local:iter = core::slice::iter::", r"^CALL <core::slice::IterMut<'a, T> as core::iter::Iterator>::next\(local:iter\)$",
+    r"^STORE local:i = ", r"^BR Ge\(local:i,param:self\.0\.bhidx_end\)$", r"^CALL~? .*IndexMut<I> for \[T; N\]>::index_mut\(param:self\.0\.bh_context,",
+    r"^CALL~? .*IntoIterator for &'a mut \[T\]>::into_iter\(", r"^STORE local:iter = core::slice::iter::", r"^CALL~? <core::slice::IterMut<'a, T> as core::iter::Iterator>::next\(local:iter\)$",
     # the same walk spelled `arr[a..b].iter_mut()`
-    r"^CALL core::slice::<impl \[T\]>::iter_mut\(core::array::<impl core::ops::IndexMut<I> for \[T; N\]>::index_mut\(param:self\.0\.bh_context,",
+    r"^CALL~? core::slice::<impl \[T\]>::iter_mut\(core::array::<impl core::ops::IndexMut<I> for \[T; N\]>::index_mut\(param:self\.0\.bh_context,",
     r"^STORE local:iter = <I as core::iter::IntoIterator>::into_iter\(core::slice::<impl \[T\]>::iter_mut\(core::array::<impl core::ops::IndexMut<I> for \[T; N\]>::index_mut\(param:self\.0\.bh_context,",
-    r"^CALL <I as core::iter::IntoIterator>::into_iter\(core::slice::<impl \[T\]>::iter_mut\(core::array::<impl core::ops::IndexMut<I> for \[T; N\]>::index_mut\(param:self\.0\.bh_context,",
+    r"^CALL~? <I as core::iter::IntoIterator>::into_iter\(core::slice::<impl \[T\]>::iter_mut\(core::array::<impl core::ops::IndexMut<I> for \[T; N\]>::index_mut\(param:self\.0\.bh_context,",
     r"^BR discr\(<core::slice::IterMut<'a, T> as core::iter::Iterator>::next\(local:iter\)\)$", r"^STORE local:bh1 = ", r"^STORE local:bh_curr_reused = ",
 )
 UNSAFE_PLUMBING = (
-    r"^STORE local:bh = ", r"^STORE local:bh_next = ", r"^CALL core::ptr::mut_ptr::<impl \*mut T>::add\(", r"^BR (Eq|Ge)\(local:bh,local:bhrange1\)$",
-    r"^STORE local:bhrange[01] = ", r"^CALL local:bh(range[01])? = core::(slice::<impl \[T\]>::as_mut_ptr|ptr::mut_ptr::<impl \*mut T>::add)\(",
+    r"^STORE local:bh = ", r"^STORE local:bh_next = ", r"^CALL~? core::ptr::mut_ptr::<impl \*mut T>::add\(", r"^BR (Eq|Ge)\(local:bh,local:bhrange1\)$",
+    r"^STORE local:bhrange[01] = ", r"^CALL~? local:bh(range[01])? = core::(slice::<impl \[T\]>::as_mut_ptr|ptr::mut_ptr::<impl \*mut T>::add)\(",
 )
 
 
